@@ -6,10 +6,100 @@
 import PG.Props.C17
 namespace PG
 
+/-! ### helper lemmas: the text renderer on the lines of a printed trace -/
+
+theorem frameLines_append (a b : List Frame) : frameLines (a ++ b) = frameLines a ++ frameLines b := by
+  simp [frameLines]
+
+theorem remapFrames_cons (rf : Frame → List Frame) (f : Frame) (fs : List Frame) :
+    remapFrames rf (f :: fs) = (if (rf f).isEmpty then [f] else rf f) ++ remapFrames rf fs := by
+  simp [remapFrames, List.flatMap_cons]
+
+theorem formatFrames_frameLine (f : Frame) (fs : List Frame) :
+    formatFrames (litIndent ++ printFrame f) fs =
+      joinLines (frameLines (if fs.isEmpty then [f] else fs)) := by
+  unfold formatFrames
+  split
+  · simp [joinLines, frameLines]
+  · exact frames_join fs
+
+theorem renderRest_frameLine (rc : Bytes → Option Bytes) (rf : Frame → List Frame) (f : Frame)
+    (h : FrameWF f) :
+    renderRest rc rf (litIndent ++ printFrame f) =
+      joinLines (frameLines (if (rf f).isEmpty then [f] else rf f)) := by
+  unfold renderRest
+  simp only [frameLine_parseFrame f h]
+  exact formatFrames_frameLine f (rf f)
+
+theorem renderFirst_frameLine (rc : Bytes → Option Bytes) (rf : Frame → List Frame) (f : Frame)
+    (h : FrameWF f) :
+    renderFirst rc rf (litIndent ++ printFrame f) =
+      joinLines (frameLines (if (rf f).isEmpty then [f] else rf f)) := by
+  unfold renderFirst
+  simp only [frameLine_parseThrowable f h, frameLine_parseFrame f h]
+  exact formatFrames_frameLine f (rf f)
+
+theorem renderRest_frames (rc : Bytes → Option Bytes) (rf : Frame → List Frame) (fs : List Frame)
+    (h : ∀ f ∈ fs, FrameWF f) :
+    ((frameLines fs).map (renderRest rc rf)).flatten = joinLines (frameLines (remapFrames rf fs)) := by
+  induction fs with
+  | nil => rfl
+  | cons f fs ih =>
+    rw [remapFrames_cons, frameLines_append, joinLines_append,
+      ← ih (fun g hg => h g (by simp [hg])), ← renderRest_frameLine rc rf f (h f (by simp))]
+    simp [frameLines]
+
+theorem renderRest_causeLine (rc : Bytes → Option Bytes) (rf : Frame → List Frame) (e : Throwable)
+    (h : ThrowableWF e) :
+    renderRest rc rf (litCausedBy ++ printThrowable e) =
+      litCausedBy ++ printThrowable ((remapThrowableWith rc e).getD e) ++ [10] := by
+  unfold renderRest
+  simp only [causeLine_parseFrame, causeLine_strip, Option.bind_some, throwable_parse e h]
+  cases remapThrowableWith rc e <;> simp
+
+theorem renderFirst_throwable (rc : Bytes → Option Bytes) (rf : Frame → List Frame) (e : Throwable)
+    (h : ThrowableWF e) :
+    renderFirst rc rf (printThrowable e) =
+      printThrowable ((remapThrowableWith rc e).getD e) ++ [10] := by
+  unfold renderFirst
+  simp only [throwable_parse e h]
+  cases remapThrowableWith rc e <;> simp
+
+theorem renderRest_cause (rc : Bytes → Option Bytes) (rf : Frame → List Frame) (c : Seg)
+    (hc : SegWF c) (hs : c.exception.isSome = true) :
+    ((causeLines c).map (renderRest rc rf)).flatten = joinLines (causeLines (remapSeg rc rf c)) := by
+  cases c with
+  | mk exc fs =>
+    cases exc with
+    | none => simp at hs
+    | some e =>
+      simp only [causeLines, remapSeg, Option.map_some, List.map_cons, List.flatten_cons,
+        joinLines_cons, renderRest_causeLine rc rf e (hc.1 e rfl), renderRest_frames rc rf fs hc.2]
+      simp
+
+theorem renderRest_causes (rc : Bytes → Option Bytes) (rf : Frame → List Frame) (cs : List Seg)
+    (h : ∀ c ∈ cs, SegWF c ∧ c.exception.isSome = true) :
+    ((cs.flatMap causeLines).map (renderRest rc rf)).flatten =
+      joinLines ((cs.map (remapSeg rc rf)).flatMap causeLines) := by
+  induction cs with
+  | nil => rfl
+  | cons c cs ih =>
+    have hc := h c (by simp)
+    simp only [List.flatMap_cons, List.map_cons, List.map_append, List.flatten_append,
+      joinLines_append, renderRest_cause rc rf c hc.1 hc.2, ih (fun x hx => h x (by simp [hx]))]
+
+theorem remapTyped_causes_some (rc : Bytes → Option Bytes) (rf : Frame → List Frame) (t : Trace)
+    (h : ∀ c ∈ t.causes, c.exception.isSome = true) :
+    ∀ c ∈ (remapTyped rc rf t).causes, c.exception.isSome = true := by
+  intro c hc
+  simp only [remapTyped, List.mem_map] at hc
+  obtain ⟨c0, hc0, rfl⟩ := hc
+  simpa [remapSeg] using h c0 hc0
+
 /-- same cause-chain depth -/
 theorem C08_depth (rc : Bytes → Option Bytes) (rf : Frame → List Frame) (t : Trace) :
     (remapTyped rc rf t).causes.length = t.causes.length := by
-  sorry
+  simp [remapTyped]
 
 /-- every throwable, at every level, is either remapped or kept unchanged; none is dropped -/
 theorem C08_exception (rc : Bytes → Option Bytes) (rf : Frame → List Frame) (t : Trace) :
@@ -17,7 +107,8 @@ theorem C08_exception (rc : Bytes → Option Bytes) (rf : Frame → List Frame) 
         t.top.exception.map (fun e => (remapThrowableWith rc e).getD e) ∧
     (remapTyped rc rf t).causes.map (·.exception) =
         t.causes.map (fun c => c.exception.map (fun e => (remapThrowableWith rc e).getD e)) := by
-  sorry
+  refine ⟨rfl, ?_⟩
+  simp [remapTyped, remapSeg, List.map_map, Function.comp_def]
 
 /-- every frame is replaced by its remapped frames, or kept when it does not resolve -/
 theorem C08_frames (rc : Bytes → Option Bytes) (rf : Frame → List Frame) (t : Trace) :
@@ -25,12 +116,41 @@ theorem C08_frames (rc : Bytes → Option Bytes) (rf : Frame → List Frame) (t 
         t.top.frames.flatMap (fun f => if (rf f).isEmpty then [f] else rf f) ∧
     (remapTyped rc rf t).causes.map (·.frames) =
         t.causes.map (fun c => c.frames.flatMap (fun f => if (rf f).isEmpty then [f] else rf f)) := by
-  sorry
+  refine ⟨rfl, ?_⟩
+  simp [remapTyped, remapSeg, remapFrames, List.map_map, Function.comp_def]
 
 /-- for traces in canonical printed form, printing the typed result gives exactly the text
     API's output for the printed input -/
 theorem C08_agrees (rc : Bytes → Option Bytes) (rf : Frame → List Frame) (t : Trace) (h : TraceWF t) :
     printTrace (remapTyped rc rf t) = remapText rc rf (printTrace t) := by
-  sorry
+  rw [printTrace_eq_join _ (remapTyped_causes_some rc rf t (fun c hc => (h.causes_wf c hc).2))]
+  unfold remapText
+  simp only [strLines_printTrace t h]
+  have hcs := renderRest_causes rc rf t.causes h.causes_wf
+  have hwf := h.top_wf
+  have hne := h.top_nonempty
+  cases t with
+  | mk top causes =>
+    cases top with
+    | mk exc fs =>
+      simp only at hwf hne hcs
+      cases exc with
+      | some e =>
+        simp only [traceLines, segLines, excLines, remapTyped, remapSeg, Option.map_some,
+          List.singleton_append, List.map_append, List.flatten_append, joinLines_append,
+          joinLines_cons, renderFirst_throwable rc rf e (hwf.1 e rfl),
+          renderRest_frames rc rf fs hwf.2, hcs]
+        simp
+      | none =>
+        cases fs with
+        | nil => simp at hne
+        | cons f fs =>
+          have hf := hwf.2 f (by simp)
+          have hfs : ∀ g ∈ fs, FrameWF g := fun g hg => hwf.2 g (by simp [hg])
+          simp only [traceLines, segLines, excLines, remapTyped, remapSeg, Option.map_none,
+            List.nil_append, frameLines, List.map_cons, List.cons_append, remapFrames_cons]
+          rw [← frameLines, ← frameLines, List.map_append, List.flatten_append,
+            renderRest_frames rc rf fs hfs, hcs, renderFirst_frameLine rc rf f hf,
+            frameLines_append, joinLines_append, joinLines_append, List.append_assoc]
 
 end PG
